@@ -1,3 +1,4 @@
+import Regatta.Extracted.Consts
 /-
   Model of the metadata store (storage/kv: raft.go LFSM.Update / Lookup, map.go MapStore) — a
   versioned register map with compare-and-set — and of what storage/table/manager.go builds on it:
@@ -139,7 +140,7 @@ inductive CVal
 
 def keyPrefix : String := "/tables/"
 def sequenceKey : String := "/tables/sys/idseq"
-def tableIDsRangeStart : Nat := 10000
+def tableIDsRangeStart : Nat := Regatta.Extracted.tableIDsRangeStart
 def tableKey (name : String) : String := keyPrefix ++ name
 def leaseKey (name : String) : String := keyPrefix ++ name ++ "/lease"
 
